@@ -24,6 +24,10 @@ pub type Alts<T> = Vec<(String, Mutator<T>)>;
 pub trait Gen: Sized + 'static {
     fn base(pos: Pos) -> Self;
     fn alts(pos: Pos, depth: u32) -> Alts<Self>;
+    /// the fully populated value: every optional member present, every list with two items, down to `depth`
+    fn full(pos: Pos, _depth: u32) -> Self {
+        Self::base(pos)
+    }
 }
 
 thread_local! {
@@ -108,6 +112,9 @@ impl<T: Gen> Gen for Option<T> {
     fn base(_: Pos) -> Self {
         None
     }
+    fn full(pos: Pos, depth: u32) -> Self {
+        if depth == 0 { None } else { Some(T::full(pos, depth - 1)) }
+    }
     fn alts(pos: Pos, depth: u32) -> Alts<Self> {
         let mut v: Alts<Self> = vec![("=Some(base)".to_owned(), Arc::new(move |o: &mut Option<T>| *o = Some(T::base(pos))))];
         for (l, m) in T::alts(pos, depth) {
@@ -124,6 +131,9 @@ impl<T: Gen> Gen for Option<T> {
 impl<T: Gen> Gen for Vec<T> {
     fn base(pos: Pos) -> Self {
         vec![T::base(pos)]
+    }
+    fn full(pos: Pos, depth: u32) -> Self {
+        if depth == 0 { vec![T::base(pos)] } else { vec![T::full(pos, depth - 1), T::full(pos, depth - 1)] }
     }
     fn alts(pos: Pos, depth: u32) -> Alts<Self> {
         let mut v: Alts<Self> = vec![("=[base,base]".to_owned(), Arc::new(move |o: &mut Vec<T>| *o = vec![T::base(pos), T::base(pos)]))];
